@@ -22,9 +22,18 @@ func (w *wWriter) Write(p []byte) (int, error) {
 	w.calls++
 	w.arg = string(p)
 	w.lockHeld = verifHeldExclusive()
-	w.n = nondetInt()
-	verifAssume(w.n >= 0)
-	verifAssume(w.n <= len(p))
+	// nothing, everything or some of it (the two ends chosen by kind, so that a native replay hits them whatever the
+	// length of its text)
+	switch symLen(0, 2) {
+	case 0:
+		w.n = 0
+	case 1:
+		w.n = len(p)
+	default:
+		w.n = nondetInt()
+		verifAssume(w.n > 0)
+		verifAssume(w.n < len(p))
+	}
 	if nondetBool() {
 		w.err = &wErr{"write"}
 	}
